@@ -34,6 +34,8 @@ def run(tier):
         nonrom = rng.random()
         configs = [(16, 0), (24, 0), (24, 5), (36, -170)] if quick else [(16, 0), (16, 11), (24, 0), (24, 5), (36, 0), (36, -170), (36, 5)]
         configs.append((27, "refined"))
+        if not quick:
+            configs = configs * 6          # the same grids with new random fields, winds and depths
         for ci, (N, start) in enumerate(configs):
             f = f_log if ci % 2 else f_lin         # the same balance objects see different grids of the same shape in turn
             delta = 360 // N if 360 % N == 0 else None
